@@ -28,7 +28,14 @@ type scen struct {
 }
 
 func (s *scen) name() string {
-	return fmt.Sprintf("%s w%d a%d", s.Def.Name, s.Opt.Workers, s.Opt.MaxConcurrentAssets)
+	n := fmt.Sprintf("%s w%d a%d", s.Def.Name, s.Opt.Workers, s.Opt.MaxConcurrentAssets)
+	if s.Opt.DisableLocalDedupe {
+		n += " disable-local-dedupe"
+	}
+	if s.Opt.LocalSeencheck {
+		n += " local-seencheck"
+	}
+	return n
 }
 
 func scenario(s *scen) *vsched.Scenario {
@@ -124,6 +131,9 @@ func scenarios(tier string) []scen {
 			}
 			out = append(out, scen{Def: d, Opt: world.Options{Workers: ca[0], MaxConcurrentAssets: ca[1], MaxRetry: 0, MaxRedirect: 2}, P: P})
 		}
+		// writer options that have nothing to do with URL de-duplication must not change it
+		out = append(out, scen{Def: d, Opt: world.Options{Workers: 1, MaxConcurrentAssets: 1, MaxRetry: 0, MaxRedirect: 2, DisableLocalDedupe: true}, P: P})
+		out = append(out, scen{Def: d, Opt: world.Options{Workers: 1, MaxConcurrentAssets: 2, MaxRetry: 0, MaxRedirect: 2, DisableLocalDedupe: true, LocalSeencheck: true}, P: 0})
 	}
 	return out
 }
